@@ -226,7 +226,10 @@ def ops_strategy(third):
                      st.booleans())
     xspi = st.builds(lambda s, x, h: ['expire_spi', s, x, h], st.sampled_from(sides),
                      st.sampled_from(['00000000', 'deadbeef', '00000001', 'ffffffff']), st.booleans())
-    alts = [trig, trig, acq, deliver, deliver, deliver, deliver, dup, old, drop, tick, hdr, hdr, status, xany, xany, xspi]
+    bad_init = st.builds(lambda s_, k: ['inject', s_, 'peer', ('00' * 7 + '%02x' % (k + 1) + '00' * 8 + ['21', '28', '29', 'ff'][k % 4] + '20' + '22' + '08' +
+                                                            '00000000' + '00000020' + ['00000004', '00000000', '21000005', '00800004'][k // 4 % 4])],
+                         st.sampled_from(sides), st.integers(0, 15))
+    alts = [bad_init, trig, trig, acq, deliver, deliver, deliver, deliver, dup, old, drop, tick, hdr, hdr, status, xany, xany, xspi]
     if third:
         alts.append(acq_c)
         alts.append(acq_c)
